@@ -33,6 +33,8 @@ type c04Case struct {
 	// Tail: bytes that are NOT a valid request, sent after the stream (the server may answer them with well-formed
 	// error frames or close the connection)
 	Tail resp.Bin `json:"tail,omitempty"`
+	// Tracer: a tracer is installed on the server (the reply path may do more work then)
+	Tracer bool `json:"tracer,omitempty"`
 }
 
 func firstName(v resp.Value) string {
@@ -72,6 +74,9 @@ func evalC04(c c04Case) *Failure {
 			return doubles.DefaultResult(cl)
 		}
 	}
+	if c.Tracer {
+		srv.SetTracer(doubles.NewTracer(&connsim.Log{}))
+	}
 	data, _ := resp.EncodeAll(c.Stream)
 	data = append(data, c.Tail...)
 	conn := connsim.NewPreloaded(1, connsim.Chunks(data, c.Sizes))
@@ -81,6 +86,9 @@ func evalC04(c c04Case) *Failure {
 		ss = append(ss, v.String())
 	}
 	what := fmt.Sprintf("stream %v (handler %s)", ss, c.Handler)
+	if c.Tracer {
+		what += " with a tracer installed"
+	}
 	if o.TimedOut {
 		return stallFailure("c04", what)
 	}
@@ -386,6 +394,7 @@ func TestC04(t *testing.T) {
 
 	h.Rapid("streams", h.N(30000, 100000), func(rt *rapid.T) {
 		c, labels := genC04Case(rt, h.Avoid)
+		c.Tracer = rapid.IntRange(0, 3).Draw(rt, "tracer") == 0
 		data, _ := resp.EncodeAll(c.Stream)
 		nt := labels["crlf-in-request"] || labels["non-array-request"] || labels["odd-command-name"] || labels["empty-array"] || labels["nil-result"] || labels["error-result"] || labels["crlf-in-handler-line"]
 		var cl []string
@@ -393,7 +402,7 @@ func TestC04(t *testing.T) {
 			cl = append(cl, l)
 		}
 		cl = append(cl, "handler:"+c.Handler)
-		canon := append(append([]byte{}, data...), []byte(fmt.Sprintf("%v|%s|%v", c.Results, c.Handler, c.Sizes))...)
+		canon := append(append([]byte{}, data...), []byte(fmt.Sprintf("%v|%s|%v|%v", c.Results, c.Handler, c.Sizes, c.Tracer))...)
 		h.Col.Case(nt, canon, cl...)
 		if h.Col.WantSample() {
 			var ss []string
@@ -431,7 +440,8 @@ func TestC04(t *testing.T) {
 	// what has been written when the connection ends is complete frames only
 	h.Rapid("big-replies", h.N(1500, 30000), func(rt *rapid.T) {
 		c := c04Case{Handler: rapid.SampledFrom([]string{"example", "example", "recorder"}).Draw(rt, "handler")}
-		big := strings.Repeat(rapid.SampledFrom([]string{"A", "xy", "\r\n+OK"}).Draw(rt, "motif"), rapid.SampledFrom([]int{100, 700, 2000, 5000}).Draw(rt, "rep"))
+		big := strings.Repeat(rapid.SampledFrom([]string{"A", "xy", "\r\n+OK"}).Draw(rt, "motif"), rapid.SampledFrom([]int{10, 30, 100, 700, 2000, 5000}).Draw(rt, "rep"))
+		c.Tracer = rapid.IntRange(0, 2).Draw(rt, "tracer") == 0
 		c.Stream = append(c.Stream, resp.Cmd("SET", "k", big))
 		n := rapid.IntRange(1, 8).Draw(rt, "n")
 		quitAt := rapid.IntRange(0, n+1).Draw(rt, "quitat") // n+1: no QUIT
@@ -464,6 +474,15 @@ func TestC04(t *testing.T) {
 		h.Col.Case(true, append(append([]byte{}, data...), []byte(fmt.Sprint(c.Handler, c.Sizes))...), "big-replies", "handler:"+c.Handler)
 		h.Fail(rt, "c04.stream", c, evalC04(c))
 	})
+
+	// replies whose length has eight digits
+	if h.Shard == 0 {
+		for _, n := range []int{9999999, 10000000, 12345678} {
+			c := c04Case{Handler: "recorder", Stream: []resp.Value{resp.Cmd("ECHO", strings.Repeat("e", n)), resp.Cmd("PING")}}
+			h.Col.Case(true, []byte(fmt.Sprint("huge", n)), "huge-reply")
+			h.Report("c04.stream", c, evalC04(c))
+		}
+	}
 
 	h.Rapid("slow-reader", h.N(1500, 30000), func(rt *rapid.T) {
 		c := c04Slow{Handler: rapid.SampledFrom([]string{"example", "recorder"}).Draw(rt, "handler")}
